@@ -363,3 +363,37 @@ fn c17_file_list_order_and_skipping() {
     std::mem::forget(files);
     std::mem::forget(top);
 }
+
+fn file_ranges_two_files(pl: u64) {
+    // lengths structurally below 2^20
+    let l0: u64 = (kani::any::<u32>() & 0xF_FFFF) as u64;
+    let l1: u64 = (kani::any::<u32>() & 0xF_FFFF) as u64;
+    let files = vec![
+        File { length: l0, path: String::from("a") },
+        File { length: l1, path: String::from("b") },
+    ];
+    let m = mk_metainfo(pl, vec![[0u8; HASH_SIZE]], files, "t");
+    let r = m.file_piece_ranges();
+    assert!(r.len() == 2, "one range per listed file, in order");
+    let p = pl as usize;
+    let (a, b) = (l0 as usize, l1 as usize);
+    assert!(r[0].1.file_index == 0 && r[0].1.byte_index == 0, "first file starts at offset 0");
+    assert!(r[0].2.file_index == a / p && r[0].2.byte_index == a % p, "first file ends at its length");
+    assert!(r[1].1.file_index == a / p && r[1].1.byte_index == a % p, "second file starts where the first ends (also inside a piece, also when the first is empty)");
+    assert!(r[1].2.file_index == (a + b) / p && r[1].2.byte_index == (a + b) % p, "second file ends at the sum of the lengths");
+    std::mem::forget(r);
+    std::mem::forget(m);
+}
+
+// @prop C03
+// @fn Metainfo::file_piece_ranges, Metainfo::piece_pos
+// @bound two files with every pair of lengths in 0..2^20 (zero-length files, files inside one piece, files ending on a piece boundary included), piece lengths 4 and 16384
+// @outside more than two files; symbolic piece lengths (DESIGN 3.12); the extractor that consumes the ranges (3.10)
+// @desc each file's start/end position is (offset / piece_length, offset % piece_length) of its running byte offset in the concatenated content: the second file starts exactly where the first ends
+#[kani::proof]
+#[kani::unwind(4)]
+fn c03_file_ranges_two_files_running_offset() {
+    file_ranges_two_files(4);
+    file_ranges_two_files(16384);
+    kani::cover!(true, "reached");
+}
